@@ -81,13 +81,20 @@ def lift258(x):
 
 # ----------------------------------------------------------------------------------------------
 def kernel_objs(m, part, shapes, symnames):
-    """allocate one object per alias class; inputs get symbolic limbs named after the first member"""
+    """allocate one object per alias class; an object that holds an input is named after that input (so that an
+    alias-safe kernel yields the SAME terms - and the same SMT problem - for every alias partition), a pure output gets
+    arbitrary prior content"""
     objs = {}
     vals = {}
+    names = list(part)
     for name, c in part.items():
         if c not in objs:
             n = shapes[name]
-            if name in symnames:
+            members = [x for x in names if part[x] == c]
+            inputs = [x for x in members if x in symnames and x != 'out' and x != 'dst' and x != 'fe']
+            if inputs:
+                l = sym_limbs(inputs[0], n)
+            elif name in symnames:
                 l = sym_limbs(name, n)
             else:
                 l = [tm.var('%s_pre_%d' % (name, i), 64) for i in range(n)]  # arbitrary prior content of outputs
@@ -293,6 +300,19 @@ def mult_kernels(chk, prog, ring, gl):
             # lemma import: discarded low words are zero (each proved in BV below)
             for n in wh['carry_only']:
                 cs.append(L.lo(tm.extract(n, 63, 0)) == 0)
+            if fn == 'ToMontgomery' and min(limbs_of(ring.R2)) > 1:
+                r2 = limbs_of(ring.R2)
+                for i in range(4):
+                    row = 0
+                    ok = True
+                    for j in range(4):
+                        pv = L.product_const(st['a'][i], r2[j])
+                        if pv is None:
+                            ok = False
+                            break
+                        row = row + pv * (W64 ** j)
+                    if ok:
+                        cs.append(row <= (W64 - 1) * (m_ - 1))
             if fn in ('Mul', 'Square'):
                 a, b = st['a'], st['b']
                 for i in range(4):
@@ -320,14 +340,27 @@ def mult_kernels(chk, prog, ring, gl):
                         if pv is None:
                             raise RuntimeError("product a%d*b%d not found in the encoding" % (i, j))
                         AB = AB + pv * (W64 ** (i + j))
-            elif fn == 'ToMontgomery':
+            elif fn == 'ToMontgomery' and min(limbs_of(ring.R2)) <= 1:
                 AB = Aint * ring.R2
+            elif fn == 'ToMontgomery':
+                # x * (R^2 mod m) as the bilinear form of opaque limb products (exact big-coefficient LIA does not finish for n)
+                r2 = limbs_of(ring.R2)
+                AB = 0
+                for i in range(4):
+                    for j in range(4):
+                        pv = L.product_const(a[i], r2[j])
+                        if pv is None:
+                            raise RuntimeError("product a%d*R2_%d not found in the encoding" % (i, j))
+                        AB = AB + pv * (W64 ** (i + j))
             else:
                 AB = Aint
             M = sum(L.lo(w) * (W64 ** i) for i, w in enumerate(wh['wit']))
             return z3.Or(O * R256 == AB + M * m_, O * R256 + m_ * R256 == AB + M * m_)
 
-        paths = chk.explore(label, h, mode='int', timeout=timeout, extra_int=extra)
+        # (for p, R^2 mod p = 2^64 + 0x7a2000e90a1 has limbs 1 and 0 which the code's products fold away: exact encoding is used there)
+        opaque_r2 = fn == 'ToMontgomery' and min(limbs_of(ring.R2)) > 1
+        iopts = {'opaque_consts': set(limbs_of(ring.R2))} if opaque_r2 else None
+        paths = chk.explore(label, h, mode='int', timeout=timeout, extra_int=extra, int_opts=iopts)
         if len(paths) != 1 or paths[0].outcome != 'ok':
             continue
         wit, carry_only = mont_structure(st['out'], ring.mprime)
@@ -339,7 +372,7 @@ def mult_kernels(chk, prog, ring, gl):
             continue
         for k, n in enumerate(carry_only):
             chk.add('%s/lowword-zero-%d' % (label, k), [], tm.eq(tm.extract(n, 63, 0), 0, 64), mode='bv', timeout=120)
-        chk.add(label + '/montgomery-identity', st['pc'], None, mode='int', timeout=timeout, extra_int=extra, int_goal=goal)
+        chk.add(label + '/montgomery-identity', st['pc'], None, mode='int', timeout=timeout, extra_int=extra, int_goal=goal, int_opts=iopts)
 
 
 # ==============================================================================================
